@@ -159,10 +159,100 @@ pub fn run(args: &Args, rep: &mut Report) {
         }
     });
     rep.merge(r);
+    big_counters(rep, t);
     vectors(rep);
     rep.configs.push(subject::config_json());
-    rep.rule = format!("reference_impl::Hasher in three modes: single update of every length 0..={} (+ lattice) with 32 and 131 output bytes; every history of <= {} updates over the fine alphabet and <= 3 (4 thorough) over the coarse alphabet; every output length 0..=200 and 1024/1025/4099 on six inputs; derive_key with a context of every length 0..={} and keyed mode with every single-bit key (four histories each); every field of test_vectors.json (key, context, 35 lengths, 3 x 131 bytes, input pattern) against the spec model and directly against the optimized crate and the reference implementation; non-trivial = distinct cases with >= 2 updates, or distinct lengths", full, if t { 5 } else { 4 }, ctx_max);
+    rep.rule = format!("reference_impl::Hasher in three modes: single update of every length 0..={} (+ lattice) with 32 and 131 output bytes; every history of <= {} updates over the fine alphabet and <= 3 (4 thorough) over the coarse alphabet; every output length 0..=200 and 1024/1025/4099 on six inputs; one output of 2^22+200 bytes (thorough 2^28+200) and one input of 2^26+3149 bytes (thorough 2^30+3149), i.e. block and chunk counters past 2^16 (2^22 / 2^20); derive_key with a context of every length 0..={} and keyed mode with every single-bit key (four histories each); every field of test_vectors.json (key, context, 35 lengths, 3 x 131 bytes, input pattern) against the spec model and directly against the optimized crate and the reference implementation; non-trivial = distinct cases with >= 2 updates, or distinct lengths", full, if t { 5 } else { 4 }, ctx_max);
     rep.assumptions.push("content restricted to stream A (the published vectors use exactly this pattern)".into());
+}
+
+/// Counters beyond 16 bits (the reference never sees them in the sweeps above): one long output
+/// (block counter past 2^16; thorough 2^22) and one long input (chunk counter past 2^16; thorough
+/// 2^20), in keyed mode. The spec gives any window of the output stream directly; the long input's
+/// spec value is composed from aligned subtrees computed on threads (self-checked at a small scale).
+fn big_counters(rep: &mut Report, thorough: bool) {
+    let mode = ModeSpec::Keyed(*vcommon::TEST_KEY);
+    let sm = mode.spec();
+    let bad = |rep: &mut Report, key: &str, what: String| {
+        rep.violation(key, what, json!({"property": "C15", "engine": "core/refimpl", "subject": "reference_impl::Hasher", "big_counters": true, "check": key}));
+    };
+    // (a) long output
+    let out_len: usize = if thorough { (1 << 28) + 200 } else { (1 << 22) + 200 };
+    let input = vcommon::stream_a(1025);
+    let node = b3spec::node(&sm, &input, 0);
+    rep.inc("evaluations");
+    rep.inc("distinct_nontrivial");
+    let r = vcommon::catch(|| {
+        let mut h = ref_hasher(&mode);
+        h.update(&input);
+        let mut out = vec![0u8; out_len];
+        h.finalize(&mut out);
+        out
+    });
+    match r {
+        Ok(out) => {
+            let mut windows: Vec<(usize, usize)> = vec![(0, 256), (out_len - 300, 300)];
+            let mut p = 1usize << 16;
+            while p < out_len {
+                // both sides of every power-of-two output offset (block counter bits 10 and up)
+                windows.push((p - 128, 328.min(out_len - (p - 128))));
+                p <<= 1;
+            }
+            for (at, n) in windows {
+                rep.inc("spec_comparisons");
+                if out[at..at + n] != node.root_bytes(at as u64, n)[..] {
+                    bad(rep, "reference_impl:long-output", format!("reference keyed output of {} bytes differs from the spec in [{}, {})", out_len, at, at + n));
+                    break;
+                }
+            }
+        }
+        Err(m) => bad(rep, "reference_impl:panic", format!("reference finalize into {} bytes panics: {}", out_len, m)),
+    }
+    // (b) long input
+    let sub: usize = if thorough { 1 << 26 } else { 1 << 22 };
+    let n = 16 * sub + 3 * 1024 + 77;
+    let data = vcommon::stream_b(15, n);
+    let small_sub = 4096;
+    let small = 16 * small_sub + 2000;
+    if spec_root_parallel(&sm, &data[..small], small_sub).root_bytes(0, 64) != b3spec::node(&sm, &data[..small], 0).root_bytes(0, 64) {
+        eprintln!("ORACLE-ANCHOR-FAILED: parallel composition of the spec differs from the recursive definition");
+        std::process::exit(2);
+    }
+    let exp = spec_root_parallel(&sm, &data, sub).root_bytes(0, 131);
+    rep.inc("evaluations");
+    rep.inc("distinct_nontrivial");
+    rep.inc("spec_comparisons");
+    let r = vcommon::catch(|| {
+        let mut h = ref_hasher(&mode);
+        let cut = n / 3 + 11;
+        h.update(&data[..cut]);
+        h.update(&data[cut..]);
+        let mut out = [0u8; 131];
+        h.finalize(&mut out);
+        out
+    });
+    match r {
+        Ok(out) if out[..] == exp[..] => {}
+        Ok(_) => bad(rep, "reference_impl:long-input", format!("reference keyed hash of {} bytes (chunk counters up to {}) differs from the spec", n, n / 1024)),
+        Err(m) => bad(rep, "reference_impl:panic", format!("reference on {} input bytes panics: {}", n, m)),
+    }
+    rep.add("max_block_counter_reached", (out_len / 64) as u64);
+    rep.add("max_chunk_counter_reached", (n / 1024) as u64);
+}
+
+/// Spec node of `data` = 16 aligned subtrees of `sub` bytes followed by a shorter tail, the sixteen
+/// subtree chaining values computed on threads by the recursive definition.
+fn spec_root_parallel(mode: &b3spec::Mode, data: &[u8], sub: usize) -> b3spec::Node {
+    assert!(sub.is_power_of_two() && sub >= 1024 && data.len() > 16 * sub && data.len() - 16 * sub <= sub);
+    let mut cvs: Vec<[u8; 32]> = std::thread::scope(|s| {
+        let hs: Vec<_> = (0..16).map(|i| s.spawn(move || b3spec::node(mode, &data[i * sub..(i + 1) * sub], (i * sub / 1024) as u64).chaining_value())).collect();
+        hs.into_iter().map(|h| h.join().expect("spec thread")).collect()
+    });
+    while cvs.len() > 1 {
+        cvs = cvs.chunks(2).map(|p| b3spec::parent_node(mode, &p[0], &p[1]).chaining_value()).collect();
+    }
+    let right = b3spec::node(mode, &data[16 * sub..], (16 * sub / 1024) as u64).chaining_value();
+    b3spec::parent_node(mode, &cvs[0], &right)
 }
 
 /// Every field of the live /repo/test_vectors/test_vectors.json.
@@ -306,6 +396,15 @@ fn generator(rep: &mut Report, file_text: &str, published: &[usize; 35]) {
 }
 
 pub fn replay(v: &Value) -> bool {
+    if v["big_counters"].as_bool() == Some(true) {
+        let args = Args { prop: "C15".into(), tier: "quick".into(), seed: 1, report: String::new(), replay: None, jobs: 1, extra: Default::default() };
+        let mut rep = Report::new(&args, "replay", "exploration");
+        big_counters(&mut rep, false);
+        for x in rep.violations.iter().take(3) {
+            println!("violation {}: {}", x.key, x.summary);
+        }
+        return rep.violations.iter().any(|x| Some(x.key.as_str()) == v["check"].as_str());
+    }
     if v["subject"].as_str() == Some("test_vectors.json") {
         let args = Args { prop: "C15".into(), tier: "quick".into(), seed: 1, report: String::new(), replay: None, jobs: 1, extra: Default::default() };
         let mut rep = Report::new(&args, "replay", "exploration");
